@@ -692,6 +692,7 @@ def _method_rules(rep, repo, app, route):
               'match_method re-binds its parameter %r before the membership test: the route\'s method set is asked about another method '
               'than the one requested (a route listing the requested method can refuse it)' % mp, route,
               stmt_of(route, rebinds[0]) if rebinds else mmf.node)
+    check_wildcard_agreement(rep, 'R06.d', repo, app, route, mmf)
     for q in ('GET', 'POST', 'PUT', 'DELETE', 'HEAD', 'OPTIONS', 'TRACE', 'CONNECT', 'PATCH'):
         ci = route.classes.get(q)
         if ci is None:
@@ -701,6 +702,170 @@ def _method_rules(rep, repo, app, route):
         ok = len(m) == 1 and repo.try_fold(m[0].value, route) in ((q,), [q])
         rep.check('R06.d', '%s::%s' % (ROUTE, q), ok, 'convenience class %s declares method %s' % (q, q) if ok else
                   'convenience route class %s declares %s' % (q, norm(m[0].value) if m else None), route, ci.node)
+
+
+def check_wildcard_agreement(rep, rule, repo, app, route, mmf):
+    """"Admits every method" has one representation, shared by the constructors that store ``.methods`` and the readers
+    that test it: match_method refuses only when the set is truthy (judged above), so the wildcard is *a falsy value* --
+    not a set enumerating the methods the framework happens to know (a request method outside the enumeration would be
+    refused by a route that declares none).
+
+      * BoundRoute.__init__, which stores the set its match_method reads: on every path on which the methods of the route
+        being bound are not known to be truthy, what it stores is that value itself or another falsy value;
+      * the null route -- the route that ends every dispatch -- declares no methods (its class hands none to
+        Route.__init__) and is bound into the class whose constructor and match_method were judged: so its match_method
+        cannot answer False, and the loop of dispatch always ends with a response."""
+    bi = route.func('BoundRoute.__init__')
+    ps = bi.params()
+    if len(ps) < 2:
+        raise AnalysisError('BoundRoute.__init__: the parameter holding the route being bound was not found')
+    rprm = ps[1]
+    res = lambda e: resolve_local(bi.node, e)
+    own = lambda e: isinstance(res(e), ast.Attribute) and res(e).attr == 'methods' and norm(res(res(e).value)) == rprm
+
+    def when_absent(e, depth=0):
+        """what ``e`` is when <route>.methods is falsy: 'falsy' (that value itself, or another empty value), 'truthy' (a value
+        that is not empty), None (not known)"""
+        e = res(e)
+        if depth > 6:
+            return None
+        if own(e):
+            return 'falsy'
+        if isinstance(e, ast.Constant):
+            return 'truthy' if e.value else 'falsy'
+        if isinstance(e, (ast.Set, ast.List, ast.Tuple)):
+            return None if any(isinstance(x, ast.Starred) for x in e.elts) else 'truthy' if e.elts else 'falsy'
+        if isinstance(e, ast.Call) and call_name(e) in ('set', 'frozenset', 'list', 'tuple', 'sorted') and not e.keywords and len(e.args) <= 1:
+            return when_absent(e.args[0], depth + 1) if e.args else 'falsy'
+        if isinstance(e, ast.Call) and call_tail(e) == 'copy' and not e.args and not e.keywords and isinstance(e.func, ast.Attribute):
+            return when_absent(e.func.value, depth + 1)
+        if isinstance(e, ast.BoolOp):
+            for v in e.values:
+                a = when_absent(v, depth + 1)
+                if a is None:
+                    return None
+                if (a == 'truthy') is isinstance(e.op, ast.Or):
+                    return a            # ``or``: the first truthy operand; ``and``: the first falsy one
+            return a
+        if isinstance(e, ast.IfExp):
+            t, pol = strip_not(e.test)
+            if own(t):
+                return when_absent(e.orelse if pol else e.body, depth + 1)
+            a, b = when_absent(e.body, depth + 1), when_absent(e.orelse, depth + 1)
+            return a if a == b else None
+        if isinstance(e, (ast.Name, ast.Attribute)):
+            names = set(n.id for n in ast.walk(e) if isinstance(n, ast.Name))
+            local = set(n.id for n in walk_body(bi.node) if isinstance(n, ast.Name) and isinstance(n.ctx, (ast.Store, ast.Del))) | set(ps)
+            if not (names & local):
+                unf = object()
+                v = repo.try_fold(e, bi.mod, unf)
+                if v is not unf and isinstance(v, (set, frozenset, list, tuple, dict, str, bytes, type(None))):
+                    return 'truthy' if v else 'falsy'
+        return None
+    stores = [s for s in stmts_of(bi.node) if isinstance(s, ast.Assign) and any(norm(t) == 'self.methods' for t in s.targets)]
+    if not stores:
+        raise AnalysisError('BoundRoute.__init__: the store to self.methods was not found')
+    for s_ in stores:
+        cs = conds(bi, s_)
+        if any(p is True and own(t) for t, p in cs):
+            rep.ok(rule, fkey(bi, 'no methods stay no methods: %s' % norm(s_)[:60]), 'stored for a route that declares methods', route, s_)
+            continue
+        a = when_absent(s_.value)
+        if a is None:
+            raise AnalysisError('BoundRoute.__init__: what %s stores for a route without methods is not followed' % short(s_))
+        ok = a == 'falsy'
+        rep.check(rule, fkey(bi, 'no methods stay no methods: %s' % norm(s_)[:60]), ok,
+                  'a route without methods is bound without methods: match_method reads that as "every method"' if ok else
+                  'a route that declares no methods is bound with a non-empty set (%s), but match_method (and the dispatch state) read only '
+                  'a falsy set as "every method": a request method outside that set is refused by every such route -- by the null route '
+                  'as well, so dispatch ends without a result' % short(s_.value), route, s_)
+    # the null route
+    ai = app.func('Application.__init__')
+    made = [s for s in stmts_of(ai.node) if isinstance(s, ast.Assign) and any(norm(t) == 'self._null_route' for t in s.targets)]
+    if len(made) != 1:
+        raise AnalysisError('Application.__init__: the construction of self._null_route was not found')
+    v = resolve_local(ai.node, made[0].value)
+    if not (isinstance(v, ast.Call) and call_tail(v) == 'bind' and isinstance(v.func, ast.Attribute)):
+        raise AnalysisError('Application.__init__: self._null_route is not <null route class>(...).bind(...)')
+    mk = resolve_local(ai.node, v.func.value)
+    kind, m_, nrc = repo.resolve(app, call_name(mk)) if isinstance(mk, ast.Call) and isinstance(mk.func, ast.Name) else (None, None, None)
+    if kind != 'class' or not isinstance(nrc, ClassInfo):
+        raise AnalysisError('Application.__init__: the class of the null route was not found')
+
+    def declares_none(call, fi):
+        """the methods argument of a constructor call: absent / a falsy constant -> True; anything else -> False; handed through
+        ``**kw`` / ``*a`` of ``fi`` -> None"""
+        for k in call.keywords:
+            if k.arg == 'methods':
+                unf = object()
+                val = repo.try_fold(k.value, fi.mod, unf)
+                return val is not unf and not val
+        if any(k.arg is None for k in call.keywords) or any(isinstance(x, ast.Starred) for x in call.args):
+            return None
+        return True
+    ok, why, at = None, '', nrc.node
+    if mk.args or mk.keywords:
+        ok = None
+    else:
+        ok = True
+        for c in repo.mro(nrc):
+            if not isinstance(c, ClassInfo) or c.name == 'Route':
+                break
+            init = c.methods.get('__init__')
+            if init is None:
+                continue
+            ups = [x for x in walk_body(init.node) if isinstance(x, ast.Call) and call_tail(x) == '__init__']
+            if len(ups) != 1:
+                ok = None
+                break
+            d = declares_none(ups[0], init)
+            at = ups[0]
+            if d is False:
+                ok = False
+                break
+            if d is None:
+                # handed through the *a / **kw of the constructor itself, untouched: nothing is passed at the construction
+                va, kw = init.node.args.vararg, init.node.args.kwarg
+                stars = [k.value for k in ups[0].keywords if k.arg is None] + [x.value for x in ups[0].args if isinstance(x, ast.Starred)]
+                own_stars = set(a_.arg for a_ in (va, kw) if a_ is not None)
+                uses = [n for n in walk_body(init.node) if isinstance(n, ast.Name) and n.id in own_stars]
+                if not all(isinstance(x, ast.Name) and x.id in own_stars for x in stars) or len(uses) != len(stars):
+                    ok = None
+                    break
+    if ok is None:
+        raise AnalysisError('%s: which methods the null route declares is not followed' % nrc.name)
+    rep.check(rule, fkey(ai, 'the null route declares no methods'), ok,
+              'the null route (%s) declares no methods: it admits every request method' % nrc.name if ok else
+              'the null route (%s) declares methods: a request with another method is refused by the route that has to end every dispatch, and '
+              'dispatch returns no response' % nrc.name, route if ok or at is not nrc.node else app, at)
+    # ... and is bound into the class whose constructor / match_method were judged
+    bound_cls = None
+    for c in repo.mro(nrc):
+        if not isinstance(c, ClassInfo):
+            continue
+        b = c.methods.get('bind')
+        if b is None:
+            continue
+        rets = [r.value for r in returns_of(b)]
+        if len(rets) == 1 and isinstance(rets[0], ast.Call) and call_tail(rets[0]) == 'bind' and isinstance(rets[0].func, ast.Attribute) and \
+                isinstance(rets[0].func.value, ast.Call) and call_name(rets[0].func.value) == 'super':
+            continue
+        if len(rets) == 1 and isinstance(rets[0], ast.Call) and isinstance(rets[0].func, ast.Name):
+            k2, m2, c2 = repo.resolve(c.mod if hasattr(c, 'mod') else route, rets[0].func.id)
+            bound_cls = c2 if k2 == 'class' and isinstance(c2, ClassInfo) else None
+        break
+    if bound_cls is None:
+        raise AnalysisError('%s.bind: the class a route is bound into was not found' % nrc.name)
+    mm2, in2 = repo.find_method(bound_cls, 'match_method'), repo.find_method(bound_cls, '__init__')
+    if mm2 is not mmf and mm2 is not None and all(isinstance(r.value, ast.Constant) and r.value.value is True for r in returns_of(mm2)) and returns_of(mm2):
+        ok = True
+    elif mm2 is mmf and in2 is bi:
+        ok = True
+    else:
+        raise AnalysisError('%s: the match_method / constructor of the class the null route is bound into are not the ones judged' % bound_cls.name)
+    rep.check(rule, fkey(ai, 'the null route admits every method'), ok,
+              'the bound null route keeps "no methods" and %s.match_method refuses only a non-empty set: the loop of dispatch always ends '
+              'with a route that answers' % bound_cls.name, app, made[0])
 
 
 def _allow_rules(rep, repo, err):
